@@ -81,7 +81,8 @@ PLAN = {
     "C17": {
         "quick": [S("hook-default"), S("m2-default-unsafe", tag="children"),
                   # concurrent first calls under Miri's data-race detector: 10 groups, one interpreter process each
-                  S("miri-plain-unsafe", tag="miri-race", miri={"depth": 1, "shards": 10, "kinds": "race-quick"}),
+                  # ... plus a 40-item selection of the interpreter work list (error paths of the parsers, one of each operation kind)
+                  S("miri-plain-unsafe", tag="miri-race", miri={"depth": 1, "shards": 16, "kinds": "race-quick,@quick"}),
                   S("hookdbg-explore", tag="dbg-c11", check="C11", only="histories-from"),
                   S("hookdbg-explore", tag="dbg-c03", check="C03", only="histories"),
                   S("hookdbg-explore", tag="dbg-c01", check="C01", only="prefix-lengths"),
